@@ -224,7 +224,7 @@ def scenario_worker(args):
 def correspondence(res):
     import multiprocessing as mp
     W = 14
-    n = 28 if res.tier == "quick" else 280
+    n = 28 if res.tier == "quick" else 112
     jobs = [(res.seed * 1000 + w, max(1, n // W)) for w in range(W)]
     with mp.get_context("fork").Pool(W) as pool:
         outs = pool.map(scenario_worker, jobs)
